@@ -85,6 +85,8 @@ def node_pool(rng, kind=None, k=None):
         pool = list(range(k))
     elif kind == "gap":
         pool = rng.sample(range(-5, 40), k)
+    elif kind == "tuple":
+        pool = rng.sample([(i, j) for i in range(3) for j in range(3)], min(k, 9))  # grid coordinates
     else:
         pool = rng.sample(["a", "b", "c", "d", "e", "n1", "n10", "n2", "x", "yy"], k)
     return kind, pool
@@ -154,7 +156,7 @@ class HGen:
         self.avoid = frozenset(avoid)
         self.nkind, self.npool = node_pool(rng, nkind)
         self.ekind, self.epool = eid_pool(rng, ekind)
-        self.extra_nodes = {"int": [97, 98], "gap": [51, -9], "str": ["zz9", "new"]}[self.nkind]
+        self.extra_nodes = {"int": [97, 98], "gap": [51, -9], "str": ["zz9", "new"], "tuple": [(9, 9), (8, 9)]}[self.nkind]
 
     # -- helpers ---------------------------------------------------------------
     def observe(self, net):
